@@ -116,6 +116,16 @@ def _implements_symmetric(torch_function: Callable) -> Callable:
     return decorator
 
 
+def _scale_columns(vecs, scales):
+    """vecs @ diag(scales).  (`vecs * scales.unsqueeze(-2)` is an ELEMENTWISE product with a 1 x N operand, which the
+    structured eigenvector operators -- diagonal, identity, Kronecker ... -- do not implement as column scaling.)"""
+    from linear_operator.operators.dense_linear_operator import DenseLinearOperator
+
+    if torch.is_tensor(vecs) or isinstance(vecs, DenseLinearOperator):
+        return vecs * scales.unsqueeze(-2)
+    return vecs.matmul(torch.diag_embed(scales))
+
+
 class LinearOperator(object):
     r"""
     Base class for LinearOperators.
@@ -2203,14 +2213,14 @@ class LinearOperator(object):
         if method == "symeig":
             evals, evecs = self._symeig(eigenvectors=True)
             # TODO: only use non-zero evals (req. dealing w/ batches...)
-            root = evecs * evals.clamp_min(0.0).sqrt().unsqueeze(-2)
+            root = _scale_columns(evecs, evals.clamp_min(0.0).sqrt())
         elif method == "diagonalization":
             evals, evecs = self.diagonalization()
-            root = evecs * evals.clamp_min(0.0).sqrt().unsqueeze(-2)
+            root = _scale_columns(evecs, evals.clamp_min(0.0).sqrt())
         elif method == "svd":
             U, S, _ = self.svd()
             # TODO: only use non-zero singular values (req. dealing w/ batches...)
-            root = U * S.sqrt().unsqueeze(-2)
+            root = _scale_columns(U, S.sqrt())
         elif method == "lanczos":
             root = self._root_decomposition()
         else:
@@ -2290,14 +2300,14 @@ class LinearOperator(object):
         elif method == "symeig":
             evals, evecs = self._symeig(eigenvectors=True)
             # TODO: only use non-zero evals (req. dealing w/ batches...)
-            inv_root = evecs * evals.clamp_min(1e-7).reciprocal().sqrt().unsqueeze(-2)
+            inv_root = _scale_columns(evecs, evals.clamp_min(1e-7).reciprocal().sqrt())
         elif method == "diagonalization":
             evals, evecs = self.diagonalization()
-            inv_root = evecs * evals.clamp_min(1e-7).reciprocal().sqrt().unsqueeze(-2)
+            inv_root = _scale_columns(evecs, evals.clamp_min(1e-7).reciprocal().sqrt())
         elif method == "svd":
             U, S, _ = self.svd()
             # TODO: only use non-zero singular values (req. dealing w/ batches...)
-            inv_root = U * S.clamp_min(1e-7).reciprocal().sqrt().unsqueeze(-2)
+            inv_root = _scale_columns(U, S.clamp_min(1e-7).reciprocal().sqrt())
         elif method == "pinverse":
             # this is numerically unstable and should rarely be used
             root = self.root_decomposition().root.to_dense()
